@@ -81,6 +81,7 @@ struct Calls {
     calls: Vec<(Option<String>, String)>,
     methods: Vec<String>,
     world: bool,
+    vec_from: bool,
 }
 impl<'ast> Visit<'ast> for Calls {
     fn visit_expr_method_call(&mut self, m: &'ast syn::ExprMethodCall) {
@@ -92,6 +93,9 @@ impl<'ast> Visit<'ast> for Calls {
             let s = quote::quote!(#p).to_string().replace(' ', "");
             if s.ends_with("get_crypto_rng") {
                 self.world = true;
+            }
+            if s == "Vec::from" {
+                self.vec_from = true;
             }
             if let Some((t, f)) = split_call_path(p) {
                 self.calls.push((t, f));
@@ -164,6 +168,7 @@ const FILES: &[&str] = &[
     "traits/time_crypt.rs",
     "traits/elgamal.rs",
     "helpers.rs",
+    "impls.rs",
     "secret_key.rs",
     "public_key.rs",
     "signature.rs",
@@ -264,6 +269,9 @@ pub fn emit(parsed: &[(String, syn::File)], out: &std::path::Path) {
                 let bytes_conv = tr_s.as_deref() == Some("TryFrom<&[u8]>");
                 for ii in &im.items {
                     if let syn::ImplItem::Fn(m) = ii {
+                        if self_name == "BlsSignature" && m.sig.ident == "new" {
+                            continue; // BlsSignature(PhantomData): no behaviour
+                        }
                         let mut g = generics_of(&m.sig);
                         g.push(("Self".into(), self_name.clone()));
                         fns.push(FnInfo {
@@ -313,12 +321,26 @@ pub fn emit(parsed: &[(String, syn::File)], out: &std::path::Path) {
     let mut callees: Vec<Vec<usize>> = vec![];
     let mut direct_world = vec![];
     for f in &table.fns {
-        let mut c = Calls { calls: vec![], methods: vec![], world: false };
+        let mut c = Calls { calls: vec![], methods: vec![], world: false, vec_from: false };
         c.visit_block(&f.block);
         let mut v = vec![];
         for (t, n) in &c.calls {
             if let Some(i) = table.resolve(&f.container, t, n) {
                 v.push(i);
+            }
+            // T::try_from(bytes) is the byte conversion of wrapper T
+            if let (Some(tn), "try_from") = (t, n.as_str()) {
+                if let Some(i) = table.by_key.get(&format!("{}::try_from_bytes", tn)) {
+                    v.push(*i);
+                }
+            }
+        }
+        if c.vec_from {
+            // Vec::from(&wrapper): any byte form (ordering only)
+            for (i, g) in table.fns.iter().enumerate() {
+                if g.name == "to_vec_bytes" && g.container != f.container && !v.contains(&i) {
+                    v.push(i);
+                }
             }
         }
         // method calls on wrapper values: every inherent method of that name (ordering and entropy use only)
